@@ -2,6 +2,8 @@ package main
 
 import (
 	"fmt"
+	"io"
+	"log"
 	"os"
 	"path/filepath"
 	"sort"
@@ -9,8 +11,13 @@ import (
 	"strings"
 	"time"
 
+	"github.com/BondMachineHQ/BondMachine/pkg/basm"
+	"github.com/BondMachineHQ/BondMachine/pkg/bmconfig"
+	"github.com/BondMachineHQ/BondMachine/pkg/bmreqs"
 	"github.com/BondMachineHQ/BondMachine/pkg/bondmachine"
+	"github.com/BondMachineHQ/BondMachine/pkg/procbuilder"
 
+	"verif/harness/bmgen"
 	"verif/harness/evid"
 	"verif/harness/tlaval"
 	"verif/harness/tlc"
@@ -526,6 +533,13 @@ func runC01(r *evid.Run) {
 			r.Sample(map[string]interface{}{"architecture": p.Arch, "program": text, "retired": want})
 		}
 	}
+	// ---- hardware optimisations derived from the program never change the behaviour ------------------------
+	optProgs, optAgree := c01Optimisations(r, scratch)
+	if optProgs < 0 {
+		return
+	}
+	r.Set("programs_rendered_with_and_without_hw_optimisations", optProgs)
+	r.Set("optimised_hardware_agreeing_clock_by_clock", optAgree)
 	r.Set("programs", int64(len(progs)))
 	r.Set("programs_agreeing_three_ways", agree)
 	r.Set("retired_instructions_compared", retired)
@@ -546,4 +560,155 @@ func uniqueSorted(xs []string) []string {
 	}
 	sort.Strings(out)
 	return out
+}
+
+// c01Optimisations renders BasmSem programs (assembled by the real assembler, whose requirement
+// tree drives the optimisations) with no hardware optimisation and with onlydestregs / onlysrcregs,
+// runs every rendering in the handshaking environment and compares, clock by clock, the program
+// counter and the registers of the optimised hardware with the plain one, and the output streams
+// with the specification's.
+func c01Optimisations(r *evid.Run, scratch string) (n, agree int64) {
+	progs, _, ok := genBasmPrograms(r, scratch, 8, 8, 40, 1, false, false, false, r.Pick(24, 200), r.Seed*47+5)
+	if !ok {
+		return -1, 0
+	}
+	input := func(port, k int) uint64 { return uint64(k+1) % 256 }
+	for _, p := range progs {
+		src, outMap, wired := basmText(p)
+		if !wired {
+			continue
+		}
+		bm, bi, err := func() (bm *bondmachine.Bondmachine, bi *basm.BasmInstance, err error) {
+			defer func() {
+				if e := recover(); e != nil {
+					err = fmt.Errorf("panic: %v", e)
+				}
+			}()
+			so, lo := os.Stdout, log.Writer()
+			if dn, e := os.OpenFile(os.DevNull, os.O_WRONLY, 0); e == nil {
+				os.Stdout = dn
+				defer func() { os.Stdout = so; dn.Close() }()
+			}
+			log.SetOutput(io.Discard)
+			defer log.SetOutput(lo)
+			return bmgen.AssembleBasmOpts(src, bmconfig.ChooserMinWordSize, bmconfig.ChooserForceSameName)
+		}()
+		if err != nil {
+			continue // C05 judges
+		}
+		reqs := bi.DumpRequirements()
+		rg, _ := bmreqs.Import(&reqs)
+		n++
+		want := 0
+		exp := make([][]uint64, len(outMap))
+		for _, o := range p.Outs {
+			for k, port := range outMap {
+				if port == int(o[0]) {
+					exp[k] = append(exp[k], o[1])
+					if len(exp[k]) > want {
+						want = len(exp[k])
+					}
+				}
+			}
+		}
+		type rendering struct {
+			name  string
+			flags procbuilder.HwOptimizations
+		}
+		var plain []string
+		var plainOuts [][]uint64
+		okAll := true
+		for _, rd := range []rendering{{"plain", 0}, {"onlydestregs", procbuilder.HwOptimizations(procbuilder.OnlyDestRegs)},
+			{"onlysrcregs", procbuilder.HwOptimizations(procbuilder.OnlySrcRegs)}, {"onlydestregs+onlysrcregs", procbuilder.HwOptimizations(procbuilder.OnlyDestRegs | procbuilder.OnlySrcRegs)}} {
+			conf := new(bondmachine.Config)
+			conf.ReqRoot = rg
+			conf.HwOptimizations = rd.flags
+			ctx := map[string]interface{}{"source": src, "optimisations": rd.name}
+			files, order, err := bmgen.VerilogFiles(bm, conf, "iverilog")
+			if err != nil {
+				r.Violate("hw-optimisation:cannot-render:"+rd.name, fmt.Sprintf("Verilog generation with %s fails: %v", rd.name, err), ctx)
+				okAll = false
+				break
+			}
+			var srcs []string
+			for _, fn := range order {
+				srcs = append(srcs, files[fn])
+			}
+			d, err := vlog.Parse(srcs...)
+			var sim *vlog.Sim
+			if err == nil {
+				sim, err = vlog.Elaborate(d, "bondmachine")
+			}
+			if err != nil {
+				r.Violate("hw-optimisation:invalid-verilog:"+rd.name, fmt.Sprintf("the Verilog generated with %s does not elaborate: %v", rd.name, err), ctx)
+				okAll = false
+				break
+			}
+			var trace []string
+			pp := procPath(0)
+			hdlClockHook = func(s *vlog.Sim) {
+				line := ""
+				for _, nme := range []string{"_pc", "_r0", "_r1", "_r2", "_r3"} {
+					if s.Has(pp + nme) {
+						v, known := s.Get(pp + nme)
+						line += fmt.Sprintf("%s=%d/%v ", nme, v, known)
+					}
+				}
+				trace = append(trace, line)
+			}
+			res, err := runEnvHdl(sim, bm.Inputs, bm.Outputs, input, 30*p.Steps+200, want, 0, 0)
+			hdlClockHook = nil
+			if err != nil {
+				r.Violate("hw-optimisation:cannot-run:"+rd.name, fmt.Sprintf("the Verilog generated with %s cannot be executed: %v", rd.name, err), ctx)
+				okAll = false
+				break
+			}
+			if rd.name == "plain" {
+				plain, plainOuts = trace, res.Outs
+				// the plain hardware delivers the specification's streams (C05 checks the simulator)
+				for k := range outMap {
+					for i, v := range exp[k] {
+						if k >= len(res.Outs) || i >= len(res.Outs[k]) || res.Outs[k][i] != v {
+							ctx["expected"], ctx["generated_verilog"] = exp, res.Outs
+							if len(p.AscOuts) > 0 && p.Entry != 0 {
+								// the recorded C05 deviation (entry directive ignored) is the assembler's, not the hardware's
+								okAll = false
+								break
+							}
+							r.Violate("hw:streams-differ-from-source", fmt.Sprintf("the generated hardware of an assembled program delivers %v, the source sends %v", res.Outs, exp), ctx)
+							okAll = false
+							break
+						}
+					}
+					if !okAll {
+						break
+					}
+				}
+				if !okAll {
+					break
+				}
+				continue
+			}
+			for i := 0; i < len(plain) && i < len(trace); i++ {
+				if plain[i] != trace[i] {
+					ctx["clock"], ctx["plain"], ctx["optimised"] = i, plain[i], trace[i]
+					r.Violate("hw-optimisation:behaviour-changes:"+rd.name, fmt.Sprintf("with %s the hardware differs from the plain hardware at clock %d: %s instead of %s", rd.name, i, trace[i], plain[i]), ctx)
+					okAll = false
+					break
+				}
+			}
+			if okAll && fmt.Sprint(res.Outs) != fmt.Sprint(plainOuts) {
+				ctx["plain"], ctx["optimised"] = plainOuts, res.Outs
+				r.Violate("hw-optimisation:streams-change:"+rd.name, fmt.Sprintf("with %s the output streams are %v instead of %v", rd.name, res.Outs, plainOuts), ctx)
+				okAll = false
+			}
+			if !okAll {
+				break
+			}
+		}
+		if okAll {
+			agree++
+		}
+	}
+	return n, agree
 }
